@@ -9,7 +9,8 @@ PROPS = ['C15']
 HARNESS = ['zz_pair_test.go', 'zz_streampool_test.go']
 SLUG_DISCARD = 'pool-discard-without-close'
 SLUG_LATE = 'late-reply-into-pooled-stream'
-SLUGS = [SLUG_DISCARD, SLUG_LATE]
+SLUG_WRITE = 'unflushed-write-survives-reuse'
+SLUGS = [SLUG_DISCARD, SLUG_LATE, SLUG_WRITE]
 
 INVS = 'TypeOK Exclusive NoLeakModKnown CountExact TableShape CapOK'
 PROPS_TL = 'FreshModKnown PutOutcome'
@@ -20,20 +21,34 @@ QUICK = [
     ('fallback-1caller', [1], 1, 2, 1, 1, 2, ['fb', 'reply', 'peerclose']),
     ('sessionloss-1caller', [1], 1, 2, 2, 1, 1, ['sess', 'rebuild', 'peerclose', 'reply']),
     ('cap2-2callers', [1, 2], 2, 3, 1, 1, 1, ['peerclose']),
+    ('unflushed-1caller', [1], 1, 2, 1, 2, 1, ['write', 'reply', 'peerclose']),
 ]
 THOROUGH = QUICK + [
     ('sessionloss-2callers', [1, 2], 1, 2, 2, 1, 1, ['sess', 'rebuild', 'peerclose']),
     ('closeheld-2callers', [1, 2], 2, 3, 1, 1, 1, ['peerclose', 'closeheld', 'reply']),
     ('fallback-2callers', [1, 2], 1, 2, 1, 1, 1, ['fb', 'reply', 'peerclose', 'closeheld']),
-    ('all-1caller', [1], 2, 3, 2, 1, 2, ['fb', 'reply', 'peerclose', 'closeheld', 'sess', 'rebuild']),
+    ('unflushed-2callers', [1, 2], 1, 2, 1, 2, 1, ['write', 'reply', 'peerclose']),
+    ('all-1caller', [1], 2, 3, 2, 2, 2, ['fb', 'reply', 'peerclose', 'closeheld', 'sess', 'rebuild', 'write']),
 ]
 
 
-def cfg_text(callers, cap, n, maxsess, maxowed, maxunread, feat, invs=INVS, props=PROPS_TL, drop=False, chk=False):
+# how the CURRENT code behaves in the three places where the spec has a switch (FALSE = the pinned tree). If a finding is
+# repaired in /repo, flip the matching constant here (otherwise the check still exits 0 but reports SPEC-DRIFT).
+# VERIF_C15_CODE=drop,unread,wbuf overrides for experiments with a repaired worktree.
+AS_CODE = {'drop': False, 'unread': False, 'wbuf': False}
+for _k in (os.environ.get('VERIF_C15_CODE') or '').split(','):
+    if _k in AS_CODE:
+        AS_CODE[_k] = True
+
+
+def cfg_text(callers, cap, n, maxsess, maxowed, maxunread, feat, invs=INVS, props=PROPS_TL, drop=None, chk=None, wb=None):
+    drop = AS_CODE['drop'] if drop is None else drop
+    chk = AS_CODE['unread'] if chk is None else chk
+    wb = AS_CODE['wbuf'] if wb is None else wb
     return ('SPECIFICATION Spec\nCONSTANTS\n  Callers = {%s}\n  Cap = %d\n  N = %d\n  MaxSess = %d\n  MaxOwed = %d\n'
-            '  MaxUnread = %d\n  DropCloses = %s\n  GetChecksUnread = %s\n  Feat = {%s}\n%s%sCHECK_DEADLOCK FALSE\n') % (
+            '  MaxUnread = %d\n  DropCloses = %s\n  GetChecksUnread = %s\n  PutChecksWbuf = %s\n  Feat = {%s}\n%s%sCHECK_DEADLOCK FALSE\n') % (
         ', '.join(map(str, callers)), cap, n, maxsess, maxowed, maxunread, 'TRUE' if drop else 'FALSE',
-        'TRUE' if chk else 'FALSE', ', '.join('"%s"' % f for f in feat),
+        'TRUE' if chk else 'FALSE', 'TRUE' if wb else 'FALSE', ', '.join('"%s"' % f for f in feat),
         ('INVARIANTS %s\n' % invs) if invs else '', ('PROPERTIES %s\n' % props) if props else '')
 
 
@@ -47,7 +62,7 @@ def lst(v, n):
 def expect(st):
     n = len(lst(st['st'], 0))
     return {'st': lst(st['st'], n), 'tab': lst(st['tab'], n), 'unread': lst(st['unread'], n), 'fb': lst(st['fb'], n),
-            'srv': lst(st['srv'], n), 'ring': list(st['ring']), 'holder': lst(st['holder'], 0), 'sess': lst(st['sess'], 0),
+            'srv': lst(st['srv'], n), 'wbuf': lst(st['wbuf'], n), 'ring': list(st['ring']), 'holder': lst(st['holder'], 0), 'sess': lst(st['sess'], 0),
             'cur': st['cur']}
 
 
@@ -57,7 +72,7 @@ def step_of(label):
     act = m.group(1)
     args = [a.strip() for a in (m.group(2) or '').split(',') if a.strip()]
     st = {'a': act, 'c': 0, 's': 0, 'f': False}
-    if act in ('Get', 'Put', 'Read', 'CloseHeld'):
+    if act in ('Get', 'Put', 'Read', 'CloseHeld', 'Write'):
         st['c'] = int(args[0])
     elif act == 'Send':
         st['c'] = int(args[0])
@@ -72,7 +87,7 @@ def step_of(label):
 
 def fmt_step(s):
     a = s['a']
-    if a in ('Get', 'Put', 'Read', 'CloseHeld'):
+    if a in ('Get', 'Put', 'Read', 'CloseHeld', 'Write'):
         return '%s(%d)' % (a, s['c'])
     if a == 'Send':
         return 'Send(%d,%s)' % (s['c'], 'exhausted' if s['f'] else 'shm')
@@ -108,7 +123,7 @@ def history_from_trace(name, plan, trace, raw=True):
     return {'name': name, 'cap': plan[2], 'callers': len(plan[1]), 'n': plan[3], 'raw': raw, 'steps': steps}
 
 
-def shortest_witnesses(plan, graph):
+def shortest_witnesses(plan, graph, want):
     """shortest behaviours of the exhaustive graph into the two ghost-marked classes: (a) `leaked` becomes non-empty,
     (b) a Get hands out a stream that is in `late` (= has unread data of an earlier use)"""
     from collections import deque
@@ -125,20 +140,29 @@ def shortest_witnesses(plan, graph):
             parsed[n] = tlaval.parse_state(nodes[n])
         return parsed[n]
     found = {}
-    while dq and len(found) < 2:
+    while dq and len(found) < len(want):
         n = dq.popleft()
         for e in out.get(n, []):
             s, d, label = edges[e]
             a, b = st(s), st(d)
-            if SLUG_DISCARD not in found and not a['leaked'] and b['leaked']:
+            if SLUG_DISCARD in want and SLUG_DISCARD not in found and not a['leaked'] and b['leaked']:
                 found[SLUG_DISCARD] = (n, e)
-            if SLUG_LATE not in found and label.startswith('Get'):
+            if label.startswith('Get'):
                 c = step_of(label)['c']
                 ha, hb = lst(a['holder'], 0), lst(b['holder'], 0)
                 callers = sorted(plan[1])
                 k = callers.index(c)
-                if ha[k] == 0 and hb[k] != 0 and hb[k] in a['late']:
-                    found[SLUG_LATE] = (n, e)
+                if ha[k] == 0 and hb[k] != 0:
+                    if SLUG_LATE in want and SLUG_LATE not in found and hb[k] in a['late']:
+                        found[SLUG_LATE] = (n, e)
+                    if SLUG_WRITE in want and hb[k] in a['wstale']:
+                        # two shapes: bytes still in the write buffer / swapped into the read buffer
+                        swapped = lst(b['unread'], 0)[hb[k] - 1] > 0 and hb[k] not in a['late'] and not lst(b['wbuf'], 0)[hb[k] - 1]
+                        shape = SLUG_WRITE + ('#swap' if swapped else '')
+                        if not swapped and hb[k] in a['late']:
+                            continue
+                        if shape not in found:
+                            found[shape] = (n, e)
             if d not in parent:
                 parent[d] = e
                 dq.append(d)
@@ -151,7 +175,7 @@ def shortest_witnesses(plan, graph):
             m = edges[parent[m]][0]
         path.reverse()
         steps = [step_of(edges[x][2]) for x in path]
-        res_h.append((slug, {'name': 'witness-' + slug, 'cap': plan[2], 'callers': len(plan[1]), 'n': plan[3], 'raw': True, 'steps': steps}))
+        res_h.append((slug.split('#')[0], {'name': 'witness-' + slug, 'cap': plan[2], 'callers': len(plan[1]), 'n': plan[3], 'raw': True, 'steps': steps}))
     return res_h
 
 
@@ -171,7 +195,7 @@ def replay_obj(v):
 
 def report(ck, r, what, conc=None):
     for v in r['violations']:
-        if v['kind'] in ('fixture', 'settle', 'server-read'):
+        if v['kind'] in ('fixture', 'settle', 'server-read', 'hang'):
             ck.inconc('%s: harness problem in %s: %s' % (what, v.get('history'), v['detail']))
             continue
         hist = ' ; '.join(fmt_step(s) for s in (v.get('steps') or [])[:(v.get('at', 10 ** 6) + 1)])
@@ -250,17 +274,21 @@ def run(prop, tier, seed, replay=None):
                               extra_files={'mc.cfg': cfg_text(callers, cap, n, ms, mo, mu, feat)})
     core_plan = QUICK[0]
 
+    lead_plan = ('lead', [1, 2], 1, 2, 1, 2, 1, ['peerclose', 'reply', 'write'])
+    write_plan = ('leadw', [1], 1, 2, 1, 2, 1, ['write'])
+    STRICT = {'noleak': (core_plan, SLUG_DISCARD, 'NoLeak'), 'fresh': (core_plan, SLUG_LATE, 'Fresh'),
+              'freshw': (write_plan, SLUG_WRITE, 'Fresh')}
+
     def strict(kind):
-        name, callers, cap, n, ms, mo, mu, feat = core_plan
-        if kind == 'noleak':
-            return tlc.run('StreamPool', 'mc.cfg', timeout=600, workers=1,
-                           extra_files={'mc.cfg': cfg_text(callers, cap, n, ms, mo, mu, feat, invs='NoLeak', props='')})
-        if kind == 'fresh':
-            return tlc.run('StreamPool', 'mc.cfg', timeout=600, workers=1,
-                           extra_files={'mc.cfg': cfg_text(callers, cap, n, ms, mo, mu, feat, invs='', props='Fresh')})
+        if kind in STRICT:
+            (name, callers, cap, n, ms, mo, mu, feat), _slug, p = STRICT[kind]
+            return tlc.run('StreamPool', 'mc.cfg', timeout=600, workers=1, extra_files={
+                'mc.cfg': cfg_text(callers, cap, n, ms, mo, mu, feat, invs='NoLeak' if p == 'NoLeak' else '',
+                                   props='' if p == 'NoLeak' else 'Fresh', drop=False, chk=False, wb=False)})
+        name, callers, cap, n, ms, mo, mu, feat = lead_plan
         return tlc.run('StreamPool', 'mc.cfg', timeout=600, workers=2,
                        extra_files={'mc.cfg': cfg_text(callers, cap, n, ms, mo, mu, feat, invs='TypeOK Exclusive NoLeak TableShape CapOK',
-                                                       props='Fresh PutOutcome', drop=True, chk=True)})
+                                                       props='Fresh PutOutcome', drop=True, chk=True, wb=True)})
 
     # the part of the real-code work that does not depend on TLC (seeded random histories, free-running concurrent
     # callers) runs while TLC builds the graphs; its recorded histories are then validated by TLC while the graph
@@ -294,7 +322,7 @@ def run(prop, tier, seed, replay=None):
            % (len(plans), '' if quick else ' + strict/repaired runs'))
     ex = ThreadPoolExecutor(max_workers=12)
     fg = [ex.submit(graph, p) for p in plans]
-    fs = {} if quick else {k: ex.submit(strict, k) for k in ('noleak', 'fresh', 'repaired')}
+    fs = {} if quick else {k: ex.submit(strict, k) for k in ('noleak', 'fresh', 'freshw', 'repaired')}
     f1 = ex.submit(go_raw, job1, 900 if quick else 2400)
     ftr = ex.submit(lambda: traces_job(f1.result()))
     graphs = [f.result() for f in fg]
@@ -315,7 +343,7 @@ def run(prop, tier, seed, replay=None):
         ck.add('transitions', len(edges))
         hs = histories_from_graph(name, plan, nodes, edges, inits)
         total = len(hs)
-        limit = 450 if quick else 6000
+        limit = 350 if quick else 6000
         if len(hs) > limit:
             hs = rng.sample(hs, limit)
         per_plan[name] = (res, len(edges), total, len(hs))
@@ -325,14 +353,17 @@ def run(prop, tier, seed, replay=None):
     #         marks the classes with the ghosts `leaked` / `late`; the shortest TLC behaviour into each class decides the
     #         KNOWN-FINDING line. thorough: plus the counterexamples of the strict properties.
     wit = []
-    for slug, h in shortest_witnesses(plans[0], graphs[0]):
-        wit.append((slug, h))
-        ck.cov['witness_' + slug] = ' ; '.join(fmt_step(s) for s in h['steps'])
+    wplans = [(plans[0], graphs[0], [SLUG_DISCARD, SLUG_LATE])]
+    wplans += [(p, g, [SLUG_WRITE, SLUG_WRITE + '#swap']) for p, g in zip(plans, graphs) if p[0] == 'unflushed-1caller']
+    for wp, wg, want in wplans:
+        for slug, h in shortest_witnesses(wp, wg, want):
+            wit.append((slug, h))
+            ck.cov[h['name'].replace('-', '_', 1)] = ' ; '.join(fmt_step(s) for s in h['steps'])
     if not quick:
-        for kind, slug in (('noleak', SLUG_DISCARD), ('fresh', SLUG_LATE)):
+        for kind, (pl, slug, _p) in STRICT.items():
             lr = leads[kind]
             if lr.violation and lr.trace:
-                wit.append((slug, history_from_trace('tlc-counterexample-' + slug, core_plan, lr.trace)))
+                wit.append((slug, history_from_trace('tlc-counterexample-' + slug, pl, lr.trace)))
     ck.log('graphs ready: %d histories to replay (+%d witnesses)' % (len(histories), len(wit)))
     job2 = {'histories': [h for _, h in wit] + histories, 'known': listed, 'random': NOJOB_R, 'conc': NOJOB_C}
     g2 = go_raw(job2, 900 if quick else 2400)
@@ -378,15 +409,15 @@ def run(prop, tier, seed, replay=None):
     # ---- 3. known-finding classes
     if not quick:
         rep = leads['repaired']
-        ck.cov['design_repaired'] = ('DropCloses=TRUE GetChecksUnread=TRUE: strict NoLeak/Fresh %s (%d states)'
+        ck.cov['design_repaired'] = ('DropCloses=TRUE GetChecksUnread=TRUE PutChecksWbuf=TRUE: strict NoLeak/Fresh %s (%d states)'
                                      % ('hold' if rep.ok else 'FAIL: %s' % (rep.violation or rep.error), rep.distinct))
         if rep.ok:
             ck.add('states', rep.distinct)
             ck.add('transitions', rep.generated)
-        for kind, slug in (('noleak', SLUG_DISCARD), ('fresh', SLUG_LATE)):
+        for kind, (pl, slug, pname) in STRICT.items():
             lr = leads[kind]
-            ck.cov['design_lead_' + kind] = ('strict %s on the as-the-code spec: %s' % (
-                'NoLeak' if kind == 'noleak' else 'Fresh',
+            ck.cov['design_lead_' + kind] = ('strict %s on the as-the-code spec (%s): %s' % (
+                pname, slug,
                 ('violated, depth %d: %s' % (len(lr.trace), ' ; '.join(fmt_step(step_of(l)) for l, _ in lr.trace[1:])))
                 if lr.violation else ('holds (%d states)' % lr.distinct if lr.ok else 'tool error')))
     for slug, h in wit:
